@@ -31,6 +31,8 @@ thread_local! {
     static NEXT_SESS: Cell<usize> = const { Cell::new(0) };
     static YIELDS: RefCell<Rng> = RefCell::new(Rng::new(0));
     static MAX_YIELD: Cell<usize> = const { Cell::new(0) };
+    /// sessions that were dropped without `shutdown()` having been called on them
+    static UNSHUT: RefCell<Vec<usize>> = const { RefCell::new(Vec::new()) };
 }
 
 fn log(e: Ev) {
@@ -76,6 +78,7 @@ impl Drop for LogDb {
         if !self.closed {
             self.closed = true;
             log(Ev::Eof(self.sess));
+            UNSHUT.with(|u| u.borrow_mut().push(self.sess));
         }
     }
 }
@@ -270,6 +273,7 @@ pub fn gen_libpar(r: &mut Rng, idx: usize) -> LibCase {
     let max_yield = *r.pick(&[0usize, 1, 3, 8]);
     let nhosts = *r.pick(&[1usize, 1, 2, 3, 4]);
     LOG.with(|l| l.borrow_mut().clear());
+    UNSHUT.with(|u| u.borrow_mut().clear());
     NEXT_SESS.with(|n| n.set(0));
     YIELDS.with(|y| *y.borrow_mut() = Rng::new(yield_seed));
     MAX_YIELD.with(|m| m.set(max_yield));
@@ -391,6 +395,7 @@ pub fn gen_libpar(r: &mut Rng, idx: usize) -> LibCase {
         line.push_str(e);
     }
     let mut oracle = None;
+    let unshut: Vec<usize> = UNSHUT.with(|u| u.borrow().clone());
     match res {
         Err(_) => oracle = Some("run_parallel panicked".to_string()),
         Ok(ok) => {
@@ -410,6 +415,11 @@ pub fn gen_libpar(r: &mut Rng, idx: usize) -> LibCase {
                 None => String::new(),
             }
         ));
+    }
+    if oracle.is_none() && !unshut.is_empty() {
+        // (this mock closes a dropped connection; a real driver need not: every session that was opened
+        // must be shut down, also those of a file that fails)
+        oracle = Some(format!("sessions {:?} were dropped without shutdown() having been called on them", unshut));
     }
     let created: Vec<String> = events
         .iter()
@@ -453,6 +463,7 @@ pub fn replay_name(path: &str, k: usize) -> String {
     }
     std::fs::write(p, "").unwrap();
     LOG.with(|l| l.borrow_mut().clear());
+    UNSHUT.with(|u| u.borrow_mut().clear());
     NEXT_SESS.with(|n| n.set(0));
     MAX_YIELD.with(|m| m.set(0));
     let rt = tokio::runtime::Builder::new_current_thread().enable_all().build().unwrap();
